@@ -168,6 +168,8 @@ v_alloc_logf(VAlloc* a, const char* fmt, ...)
   a->log_len += (size_t)n;
 }
 
+#define V_ALLOC_LIMIT ((size_t)1 << 28)
+
 static bool
 v_alloc_refuse(VAlloc* a)
 {
@@ -257,7 +259,7 @@ v_realloc(ZixAllocator* al, void* ptr, size_t size)
     ++a->n_errors;
     v_alloc_logf(a, "ERR-realloc-of-aligned-b%d", id);
   }
-  if (v_alloc_refuse(a)) {
+  if (v_alloc_refuse(a) || size > V_ALLOC_LIMIT) {
     v_alloc_logf(a, "r%d:%zu=0", id, size);
     return NULL;
   }
